@@ -132,7 +132,7 @@ pub fn run(args: &Args) {
     );
     report.engine("inproc");
     report.assumption("pairs in which P or P' is not accepted are outside the domain: skipped and counted");
-    let ex = ArtExclusions { no_persisted: true, ..Default::default() };
+    let ex = ArtExclusions { no_persisted: true, ..driver::negative_int_exclusion() };
     let run_input = |input: &Value| {
         let a = cases::load_case_files(input).files;
         let b = cases::load_case_files(&json!({"files": input["files2"]})).files;
@@ -153,8 +153,9 @@ pub fn run(args: &Args) {
         report.finish();
     }
     report.run_regressions(run_input);
-    let n = args.tier.pick(2400, 72_000);
+    let n = args.tier.pick(4000, 120_000);
     let res = vcore::run_prop_parallel(&report, "pairs", n, vcore::num_workers(), driver::art_case_strategy, |spec| {
+        driver::count_excluded(&report, spec, &ex);
         let Some(pair) = make_pair(spec, &ex) else {
             let case = driver::gen_case(spec, &ex);
             report.case(None::<&str>, &["no-place-for-the-transformation", if case.project.decls.is_empty() { "no-place:project-without-declarations" } else { "no-place:other" }]);
